@@ -14,6 +14,7 @@ CONSTANTS
  InlineData = FALSE
  Conc = 64
  Probes = FALSE
+ Exts = {FALSE}
 INIT GInit
 NEXT GNext
 INVARIANTS Emit
